@@ -409,6 +409,7 @@ type WorldOptions struct {
 	// balance manager / payment service, as pool.go does with --contract.address.
 	Contract        bool
 	ContractWallets []*Identity // wallets funded on the simulated chain
+	ContractPre     func(*ContractEnv) // chain activity from before the pool started
 }
 
 // World is a pool with its store, balance manager and fake agents.
@@ -473,7 +474,7 @@ func NewWorld(o WorldOptions) (*World, error) {
 		bs = w.Deposits
 	}
 	if o.Contract {
-		env, err := NewContractEnv(w.Store, o.ContractWallets)
+		env, err := NewContractEnv(w.Store, o.ContractWallets, o.ContractPre)
 		if err != nil {
 			w.cleanup()
 			return nil, err
@@ -629,8 +630,14 @@ func (w *World) EventsSince(stamp int64) []RecEvent {
 // Dial opens a new connection for an identity, reporting addr as the agent's
 // source address to the pool.
 func (w *World) Dial(owner *Identity, addr string) *Conn {
-	id := int(atomic.AddInt32(&w.connSeq, 1))
 	poolCodec, agentCodec := ChanCodecPair(addr, "pool:0")
+	return w.DialCodecs(owner, addr, poolCodec, agentCodec)
+}
+
+// DialCodecs is Dial over a given pair of codecs (e.g. the library's own
+// stream codec over a net.Pipe or a unix socket).
+func (w *World) DialCodecs(owner *Identity, addr string, poolCodec, agentCodec jsonrpc2.Codec) *Conn {
+	id := int(atomic.AddInt32(&w.connSeq, 1))
 	rec := &Recorder{w: w, ConnID: id, Host: owner.NodeID, done: make(chan struct{})}
 	agentServer := &jsonrpc2.Server{}
 	agentServer.RegisterMethod("vipnode_whitelist", rec, "Whitelist")
